@@ -1,16 +1,16 @@
 #!/bin/sh
 # development aid: run TLC on a root-spec module in a scratch copy of /verif/spec
-# usage: probes/root/devtlc.sh <Module> <cfg> [workers] [extra tlc args...]
+# usage: [TMO=seconds] [TRACE_FILE=x.ndjson] probes/root/devtlc.sh <Module> <cfg> [workers] [extra tlc args...]
 set -u
 mod="$1"; cfg="$2"; w="${3:-8}"
 [ $# -ge 3 ] && shift 3 || shift 2
-d=$(mktemp -d /tmp/root-tlc-XXXXXX)
+d=$(mktemp -d /tmp/rtlc-XXXXXX)
 cp /verif/spec/*.tla "$d"/
 cp /verif/spec/cfg/"$cfg" "$d"/
 [ -n "${TRACE_FILE:-}" ] && cp "$TRACE_FILE" "$d"/trace.ndjson
 cd "$d" || exit 2
-JAVA_TOOL_OPTIONS="-Xss64m" tlc -workers "$w" -metadir "$d/meta" -config "$cfg" "$@" "$mod.tla" 2>&1 \
-  | grep -v "^Parsing\|^Semantic\|^Linting\|^Picked up" > "$d/out.txt"
-echo "output: $d/out.txt"
-grep -v '^<<"CASE"' "$d/out.txt" | tail -${TAIL:-60}
+JAVA_TOOL_OPTIONS="-Xss64m" timeout "${TMO:-600}" java -XX:+UseParallelGC -cp /opt/veriftools/tla/tla2tools.jar:/opt/veriftools/tla/CommunityModules-deps.jar tlc2.TLC \
+  -workers "$w" -metadir "$d/meta" -config "$cfg" "$@" "$mod.tla" > "$d/raw.txt" 2>&1
+echo "tlc exit: $?   output: $d/raw.txt"
+grep -v "^Parsing\|^Semantic\|^Linting\|^Picked up" "$d/raw.txt" | grep -v '^<<"CASE"' | tail -${TAIL:-60}
 rm -rf "$d/meta"
